@@ -908,6 +908,12 @@ func zsOnExec(r *evid.Run, prop string, sc *zsScenario, x *mcrt.Explorer, b mcrt
 				fails = append(fails, f)
 			}
 		}
+		if res.Horizon && prop == "C02" {
+			// the body waits for quiescence (no runnable thread, no pending finite timer) before it looks at the end
+			// state; an execution that is still busy after the step horizon (25x the longest execution of the
+			// unchanged tree) never drains: some loop or timer keeps re-arming itself
+			fails = append(fails, "C02: the scheduler never comes to rest: still busy at the step horizon, long after every request was over or abandoned")
+		}
 		for _, p := range res.Panics {
 			// a panic in a scheduler goroutine kills the server: no request is answered any more
 			if prop == "C02" || prop == "C01" {
